@@ -42,10 +42,11 @@ func init() {
 }
 
 type query struct {
-	text string
-	op   string
-	vars map[string]interface{}
-	note string
+	text    string
+	op      string
+	vars    map[string]interface{}
+	varsets []map[string]interface{} // alternative assignments: the same text must be served correctly for each
+	note    string
 }
 
 // ---- pool construction
@@ -264,6 +265,36 @@ func mimicry(m *model.Schema) []query {
 		out = append(out, query{text: fmt.Sprintf(`{ a: %s(%s: 1) }`, intf, intarg), op: "", note: "one-int"})
 		out = append(out, query{text: fmt.Sprintf(`{ a: %s }`, intf), note: "no-arg"})
 	}
+	// literal pairs in ONE operation that a non-injective rendering (Go's %v,
+	// joined strings) would identify: both must reach the resolvers unchanged
+	for _, f := range q.Fields {
+		if !m.IsLeaf(f.Type.Base()) {
+			continue
+		}
+		for _, a := range f.Args {
+			t := a.Type
+			if t.Kind == "nonnull" {
+				t = t.Of
+			}
+			if t.Kind == "list" && t.Of.Kind == "named" && (t.Of.Name == "String" || t.Of.Name == "ID" || t.Of.Name == "Tag") {
+				other := ""
+				for _, b := range f.Args {
+					if b != a && b.Type.Kind == "nonnull" {
+						other = "-" // another required argument: skip this field
+					}
+				}
+				if other != "" {
+					continue
+				}
+				out = append(out, query{text: fmt.Sprintf(`{ k1: %s(%s: ["a b"]) k2: %s(%s: ["a", "b"]) }`, f.Name, a.Name, f.Name, a.Name), note: "collide-list-split"})
+				out = append(out, query{text: fmt.Sprintf(`{ k1: %s(%s: ["a", "b c"]) k2: %s(%s: ["a b", "c"]) k3: %s(%s: ["a b c"]) }`, f.Name, a.Name, f.Name, a.Name, f.Name, a.Name), note: "collide-list-split-3"})
+				out = append(out, query{text: fmt.Sprintf(`{ k1: %s(%s: ["1"]) k2: %s(%s: "1") }`, f.Name, a.Name, f.Name, a.Name), note: "collide-list-of-one"})
+			}
+			if t.Kind == "named" && t.Name == "ID" {
+				out = append(out, query{text: fmt.Sprintf(`{ k1: %s(%s: 1) k2: %s(%s: "1") }`, f.Name, a.Name, f.Name, a.Name), note: "collide-id-int-string"})
+			}
+		}
+	}
 	out = append(out, query{text: `{ __typename`, note: "syntax-error"}, query{text: `{ nope }`, note: "validation-error"},
 		query{text: `query A { __typename } query B { __typename }`, op: "", note: "ambiguous"}, query{text: `query A { __typename } query B { b: __typename }`, op: "B", note: "named-B"},
 		query{text: `query A { __typename } query B { b: __typename }`, op: "A", note: "named-A"}, query{text: `query A { __typename }`, op: "Z", note: "unknown-op"})
@@ -351,6 +382,9 @@ func run(c *core.Child) {
 	for si := 0; si < nSchemas; si++ {
 		sr := c.RNG(1, uint64(si))
 		m := schemagen.Gen(sr, schemagen.DefaultOptions(sr))
+		if si == 0 {
+			m = probeModel() // guaranteed argument shapes for the normalisation probes
+		}
 		vseed := sr.U64()
 		// pool
 		var pool []query
@@ -367,10 +401,18 @@ func run(c *core.Child) {
 			d := mk()
 			for i := range vs {
 				vs[i].vars = typedoc.Assignment(c.RNG(4, uint64(si), uint64(di)), m, d, d.Ops[0], uint64(di))
+				// every assignment of the directive variables (up to 8), other variables re-drawn
+				nb := typedoc.BoolVars(d, d.Ops[0])
+				for bits := 0; bits < (1<<uint(nb)) && bits < 8; bits++ {
+					vs[i].varsets = append(vs[i].varsets, typedoc.Assignment(c.RNG(4, uint64(si), uint64(di), uint64(bits)), m, d, d.Ops[0], uint64(bits)))
+				}
 			}
 			pool = append(pool, vs...)
 		}
 		pool = append(pool, mimicry(m)...)
+		if si == 0 {
+			pool = append(pool, probeQueries()...)
+		}
 		// (vi) normalisation leaves the caller's document untouched
 		if env0, err := build.Build(m, vseed); err == nil {
 			for qi, q := range pool {
@@ -472,6 +514,9 @@ func history(c *core.Child, r *core.RNG, m *model.Schema, vseed uint64, pool []q
 			continue
 		}
 		q := sub[r.Intn(len(sub))]
+		if len(q.varsets) > 0 {
+			q.vars = q.varsets[r.Intn(len(q.varsets))]
+		}
 		env := envs[cur]
 		opsDesc = append(opsDesc, fmt.Sprintf("Get(%s)", q.note))
 		if len(opsDesc) > 60 {
@@ -617,4 +662,80 @@ func trunc(s string) string {
 		return s[:700] + "…"
 	}
 	return s
+}
+
+// probeModel has one root field per argument shape the normaliser treats
+// differently (scalar, list, ID, enum with non-name internal values, custom
+// scalar, input object with defaults, two arguments).
+func probeModel() *model.Schema {
+	N, L := model.Named, model.ListOf
+	str := N("String")
+	arg := func(t *model.TypeRef) []*model.InputDef { return []*model.InputDef{{Name: "a", Type: t}} }
+	m := &model.Schema{Query: "Q", Types: []*model.TypeDef{
+		{Kind: model.Scalar, Name: "Tag"},
+		{Kind: model.Enum, Name: "E", Values: []*model.EnumVal{{Name: "RED", Internal: 0}, {Name: "GREEN", Internal: 1}, {Name: "BLUE", Internal: "b l u e"}}},
+		{Kind: model.InputObject, Name: "In", InputFields: []*model.InputDef{
+			{Name: "s", Type: str}, {Name: "l", Type: L(str)}, {Name: "e", Type: N("E"), HasDefault: true, Default: 1}, {Name: "n", Type: N("Int"), HasDefault: true, Default: 7}, {Name: "t", Type: N("Tag")}}},
+		{Kind: model.Object, Name: "O", Fields: []*model.FieldDef{{Name: "x", Type: str, Args: arg(str)}, {Name: "y", Type: str}}},
+		{Kind: model.Object, Name: "Q", Fields: []*model.FieldDef{
+			{Name: "s", Type: str, Args: arg(str)},
+			{Name: "l", Type: str, Args: arg(L(str))},
+			{Name: "ll", Type: str, Args: arg(L(L(str)))},
+			{Name: "ids", Type: str, Args: arg(L(N("ID")))},
+			{Name: "id", Type: str, Args: arg(N("ID"))},
+			{Name: "e", Type: str, Args: arg(N("E"))},
+			{Name: "es", Type: str, Args: arg(L(N("E")))},
+			{Name: "t", Type: str, Args: arg(N("Tag"))},
+			{Name: "ts", Type: str, Args: arg(L(N("Tag")))},
+			{Name: "o", Type: str, Args: arg(N("In"))},
+			{Name: "os", Type: str, Args: arg(L(N("In")))},
+			{Name: "f", Type: str, Args: arg(N("Float"))},
+			{Name: "two", Type: str, Args: []*model.InputDef{{Name: "a", Type: N("Int")}, {Name: "b", Type: N("Int"), HasDefault: true, Default: 5}}},
+			{Name: "obj", Type: N("O")},
+		}},
+	}}
+	m.Reindex()
+	return m
+}
+
+// probeQueries are hand-written for probeModel.
+func probeQueries() []query {
+	texts := map[string]string{
+		"collide-list-split":     `{ k1: l(a: ["a b"]) k2: l(a: ["a", "b"]) }`,
+		"collide-list-split-3":   `{ k1: l(a: ["a", "b c"]) k2: l(a: ["a b", "c"]) k3: l(a: ["a b c"]) }`,
+		"collide-nested-lists":   `{ k1: ll(a: [["a"], ["b"]]) k2: ll(a: [["a", "b"]]) k3: ll(a: [["a b"]]) }`,
+		"collide-id-int-string":  `{ k1: id(a: 1) k2: id(a: "1") k3: ids(a: [1, "1"]) k4: ids(a: ["1 1"]) }`,
+		"collide-object-strings": `{ k1: o(a: {s: "x l:[y]"}) k2: o(a: {s: "x", l: ["y"]}) }`,
+		"collide-object-lists":   `{ k1: os(a: [{s: "a"}, {s: "b"}]) k2: os(a: [{s: "a} {s:b"}]) }`,
+		"enum-literals":          `{ k1: e(a: RED) k2: e(a: GREEN) k3: e(a: BLUE) k4: es(a: [BLUE, RED]) k5: o(a: {e: BLUE}) k6: o(a: {s: "d"}) }`,
+		"custom-scalar-literals": `{ k1: t(a: "x") k2: ts(a: ["x", "tag:x"]) k3: o(a: {t: "x"}) }`,
+		"float-int-literals":     `{ k1: f(a: 1) k2: f(a: 1.0) k3: f(a: 1e0) k4: two(a: 1) k5: two(a: 1, b: 1) k6: two(b: 1) }`,
+		"same-literal-twice":     `{ k1: s(a: "same") k2: s(a: "same") x: s(a: "same") x: s(a: "same") obj { x(a: "same") } }`,
+		"literal-in-fragment":    `{ x: s(a: "v") ...F obj { ...G x(a: "w") } } fragment F on Q { x: s(a: "v") } fragment G on O { x(a: "w") }`,
+		"literal-vs-variable":    `query($v: String = "dv") { k1: s(a: $v) k2: s(a: "dv") k3: l(a: [$v, "dv"]) }`,
+		"default-changed-1":      `query($v: Int = 1) { two(a: $v) }`,
+		"default-changed-2":      `query($v: Int = 2) { two(a: $v) }`,
+		"default-object-1":       `query($v: In = {s: "a", n: 1}) { o(a: $v) }`,
+		"default-object-2":       `query($v: In = {s: "a", n: 2}) { o(a: $v) }`,
+		"directive-literal-1":    `{ s(a: "q") @skip(if: false) obj @include(if: true) { y } }`,
+		"directive-literal-2":    `{ s(a: "q") @skip(if: true) obj @include(if: true) { y } }`,
+		"directive-literal-3":    `{ s(a: "q") @skip(if: false) obj @include(if: false) { y } }`,
+	}
+	names := make([]string, 0, len(texts))
+	for n := range texts {
+		names = append(names, n)
+	}
+	sort.Strings(names)
+	var out []query
+	for _, n := range names {
+		q := query{text: texts[n], note: "probe-" + n}
+		if n == "literal-vs-variable" {
+			q.varsets = []map[string]interface{}{{}, {"v": "given"}, {"v": "dv"}}
+		}
+		if strings.HasPrefix(n, "default-") {
+			q.varsets = []map[string]interface{}{{}, {"v": nil}}
+		}
+		out = append(out, q)
+	}
+	return out
 }
